@@ -169,7 +169,7 @@ def main(argv):
             proof_problems.append('leanchecker rejected: ' + lc_out[-300:])
 
     # 3 + 4. correspondence and oracle
-    ctx = Ctx(prop, tier, seed)
+    ctx = Ctx(prop, tier, seed, scale=float(os.environ.get('VERIF_QUICK_SCALE', '3')) if tier == 'quick' else 1.0)
     if not driver_ok:
         print('infrastructure failure: model driver does not build', file=sys.stderr)
         print(out[-2000:], file=sys.stderr)
